@@ -1,4 +1,7 @@
 """C01 - evaluation returns the real-arithmetic value of the expression (DESIGN.md 6, C01)."""
+import json
+import re
+
 import z3
 
 import families as fam
@@ -52,9 +55,10 @@ def jobs(tier, seed):
     for d in fam.f1_shared(tier):
         add(d)
         add(d, pre=[["eval", "root", "q"]])
-        if d[0] != "share" and any(isinstance(c, list) and c[0] == "share" for c in d[1:]):
-            key = [c for c in d[1:] if isinstance(c, list) and c[0] == "share"][0][1]
+        keys = sorted(set(re.findall(r'"share", "(\w+)"', json.dumps(d))))
+        for key in keys:
             add(d, pre=[["eval", key, "q"]])
+            add(d, pre=[["eval", key, "q"], ["eval", "root", "q"]])
     # bare number in place of a point
     for d in fam.unary_variants(fam.X, tier) + [["Add", fam.X, ["const", 2]], ["Multiply", fam.X, fam.X], ["Add"], ["const", 3]]:
         add(d, routes=("eval_num",), var="x", supplied=["x"])
